@@ -6,8 +6,17 @@ order.  Tie: the REAL tfel-check is rebuilt from the working tree (tfel-check.cx
 ProcessManager, SignalManager) with link-time wrappers logging the operations on log_synchronization and on the pool's
 mutex; every run (-j 1..16, seeded delays, random command durations) is translated to Start/Append/Finish events and
 fed to the extracted acceptor; tfel-check.log and the exit status are re-checked independently and compared with the
--j 1 run."""
+-j 1 run.
+Second part: a check = requirements + commands + tests (TestLauncher::execute modelled: every command is run, then every
+comparison, verdict as in the code incl. discard_commands_failure); the task of check i returns launcher_execute of its
+own definition; proved: exactly once, recorded (check, verdict, per-command, per-test) results = those of the sequential
+run as a multiset, exit status likewise.  Tie: generated .check files with @Requires / @Environment / several @Command /
+@Test of each comparison kind against reference files (ground truth from the generated numbers); the results parsed from
+each block of the real log ride on the Finish events given to the acceptor (= rstep_fn), its final recorded list is
+compared with sequential_results (extracted) and with the generator's own ground truth; per-check JUnit files and
+.checklog files are compared with the ground truth and between -j N and -j 1."""
 import glob, os, re, shutil, struct, threading, time
+import xml.etree.ElementTree as ET
 from concurrent.futures import ThreadPoolExecutor
 from vlib import guarded_main, REPO, REPO_BUILD, CACHE, FileLock
 
@@ -26,9 +35,9 @@ LIBS = ["-Wl,--wrap=pthread_mutex_lock", "-Wl,--wrap=pthread_mutex_unlock", "-Wl
 MODEL = ["C52Spec.v", "C52Model.v"]
 EXTRACT = """From Coq Require Import ExtrOcamlBasic.
 From C52 Require Import C52Spec C52Model.
-Extraction "c52_model.ml" step_fn init.
+Extraction "c52_model.ml" step_fn init rstep_fn rinit sequential_results launcher_execute.
 """
-ANSI = re.compile(r"\x1b\[[0-9;]*m")
+ANSI = re.compile(r"\x1b\[[0-9;]*m|\x0f")
 KINDS = ["LOGLOCK", "LOGUNLOCK", "POOLLOCK", "POOLUNLOCK", "WAITFAIL", "SELFLOCK", "HEXEC_BEGIN", "HEXEC_END", "HEXEC_DELETED", "HDELETE",
          "REG_RET", "REM_CALL", "REM_RET", "SIG_ENTER", "SIG_RETURN", "SIG_DEFERRED", "CUNLOCK_IN_HANDLER"]
 
@@ -72,6 +81,7 @@ def private_libs(c):
 
 
 def gen(rng, n):
+    """legacy corpus: checks made of commands only (kept for the `lifetime` scenarios and a share of the seeded ones)"""
     checks = []
     for _ in range(n):
         cmds = []
@@ -80,6 +90,253 @@ def gen(rng, n):
             cmds.append("false" if r < 0.15 else ("true" if r < 0.5 else "sleep 0.0%d" % rng.randint(0, 4)))
         checks.append(cmds)
     return checks
+
+
+KINDS_CMP = ["Absolute", "Relative", "RelativeAndAbsolute", "Mixed", "Area"]
+# @TestType Area crashes tfel-check whatever -j (Test::setColIntegralInterpolated stores the column in `ci`, the member
+# colIntegralInterpolated stays null and AreaComparison::compare dereferences it): a sequential defect, outside C52; the
+# kind is generated when C52_AREA=1 or when the sequential probe of main() (one Area comparison, -j 1) does not crash
+USE_AREA = os.environ.get("C52_AREA") == "1"
+
+
+def fl(x):
+    return repr(float(x))
+
+
+def gen_column(rng, kind, ok, ref):
+    """-> (directive lines, result column): a result column whose comparison with `ref` passes (ok) or fails, every
+    error being 0.3 x the threshold at most (pass) or 5 x the threshold on one row (fail): no rounding can flip it"""
+    nrow = len(ref)
+    u = [rng.uniform(-0.3, 0.3) for _ in ref]
+    bad = rng.randrange(nrow)
+    sg = rng.choice([-1.0, 1.0])
+    if kind == "Absolute":
+        p = rng.choice([1e-3, 0.5, 1e-6])
+        res = [v + p * ui for v, ui in zip(ref, u)]
+        if not ok:
+            res[bad] = ref[bad] + sg * 5 * p
+        return ["@TestType Absolute;", "@Precision %s;" % fl(p)], res
+    if kind == "Relative":
+        p = rng.choice([1e-2, 1e-4, 1e-8])
+        res = [v * (1 + p * ui) for v, ui in zip(ref, u)]
+        if not ok:
+            res[bad] = ref[bad] * (1 + 5 * p)
+        return ["@TestType Relative;", "@Precision %s;" % fl(p)], res
+    if kind == "RelativeAndAbsolute":
+        p = rng.choice([1e-3, 1e-5])
+        if ok and rng.random() < 0.5:      # relative criterion violated everywhere, absolute criterion met
+            res = [v * (1 + 50 * p) for v in ref]
+            q = max(abs(v) for v in ref) * 50 * p / 0.3
+        elif ok:
+            res = [v * (1 + p * ui) for v, ui in zip(ref, u)]
+            q = rng.choice([1e-9, 1e-3])
+        else:
+            res = [v * (1 + p * ui) for v, ui in zip(ref, u)]
+            res[bad] = ref[bad] * (1 + 5 * p)
+            q = abs(ref[bad]) * p             # absolute error of that row = 5 q
+        return ["@TestType RelativeAndAbsolute;", "@Precision %s %s;" % (fl(p), fl(q))], res
+    if kind == "Mixed":
+        p = rng.choice([1e-3, 1e-5])
+        q = rng.choice([1e-4, 1e-2])
+        res = [v + (p * abs(v) + q) * ui for v, ui in zip(ref, u)]
+        if not ok:
+            res[bad] = ref[bad] + sg * 5 * (p * abs(ref[bad]) + q)
+        return ["@TestType Mixed;", "@Precision %s %s;" % (fl(p), fl(q))], res
+    if kind == "Area":
+        p = rng.choice([1e-2, 1e-3])
+        d = (0.3 if ok else 5.0) * p * max(abs(v) for v in ref) / (nrow - 1)
+        res = [v + d for v in ref]
+        return ["@TestType Area interpolation Linear using 1;", "@Precision %s;" % fl(p)], res
+    raise ValueError(kind)
+
+
+def probe_area(c, exe, libdir):
+    """one check with one Area comparison (identical columns up to 1e-9: it must pass), run sequentially -> (exit status, .check text, stderr)"""
+    d = os.path.join(c.work, "probe_area")
+    shutil.rmtree(d, ignore_errors=True)
+    os.makedirs(os.path.join(d, "t0"))
+    tcol, ref = [0.0, 1.0, 2.0, 3.0], [1.0, 2.0, 4.0, 3.0]
+    text = '@TestType Area interpolation Linear using 1;\n@Precision 0.01;\n@Test "res.dat" "ref.dat" 2;\n'
+    with open(os.path.join(d, "tfel-check.config"), "w") as f:
+        f.write('components : {"c52::present"};\n')
+    for fn, content in (("a.check", text), ("ref.dat", table(["t", "c0"], [tcol, ref])), ("res.dat", table(["t", "c0"], [tcol, [v + 1e-9 for v in ref]]))):
+        with open(os.path.join(d, "t0", fn), "w") as f:
+            f.write(content)
+    env = {"C52_TRACE": os.path.join(d, "trace.bin"), "C52_SEED": "1", "C52_PERTURB": "0", "C52_WATCHDOG": "40", "C52_WIDEN": "0", "LD_LIBRARY_PATH": libdir}
+    rc = 127
+    for attempt in range(3):
+        rc, out, err = c.run([exe, "-j", "1", "t0/a.check"], cwd=d, env=env, timeout=120)
+        if rc == 127 and ("error while loading shared libraries" in err or "symbol lookup error" in err):
+            time.sleep(2)
+            continue
+        break
+    return rc, text, err
+
+
+def table(names, cols):
+    return " ".join(names) + "\n" + "".join(" ".join(fl(c[i]) for c in cols) + "\n" for i in range(len(cols[0])))
+
+
+def gen_rich(rng, n):
+    """checks with @Requires, @Environment, several @Command (some with options) writing result files in the check's
+    directory, and @Test comparisons of every kind against reference files; the ground truth of every command and of
+    every comparison is decided here, from the generated numbers (never from tfel-check)"""
+    checks = []
+    for k in range(n):
+        if rng.random() < 0.25:
+            cmds = gen(rng, 1)[0]
+            checks.append(cmds)
+            continue
+        nrow = rng.randint(4, 8)
+        tcol = [float(i) for i in range(nrow)]
+        lines, files, cmd_ok, test_ok = [], {}, [], []
+        # ---- requirements
+        r = rng.random()
+        req_ok = True
+        if r < 0.12:
+            lines.append('@Requires {"c52::absent"};'); req_ok = False
+        elif r < 0.2:
+            lines.append('@Requires {"c52::present", "c52::absent"};'); req_ok = False
+        elif r < 0.45:
+            lines.append('@Requires {"c52::present"};')
+        # ---- environment: the variant of the result file that `gen.sh` installs is chosen by an environment variable
+        # which differs from one check to the next (a value leaking from another check changes the verdicts)
+        good, other = rng.sample(["A", "B", "C", "D"], 2)
+        env_mode = rng.choice(["good"] * 5 + ["bad", "unset"])
+        if env_mode != "unset":
+            lines.append('@Environment {"C52_VARIANT" : "%s"};' % (good if env_mode == "good" else other))
+        files["gen.sh"] = "cp src_$C52_VARIANT.dat res.dat\n"
+        files["say.sh"] = 'echo "v=$C52_VARIANT"\n'
+        # ---- tests
+        ntests = rng.randint(1, 5)
+        names = ["t"] + ["c%d" % j for j in range(ntests)]
+        refcols, goodcols, badcols, tlines = [tcol], [tcol], [tcol], []
+        producer = rng.choice(["gen"] * 4 + ["cp"] * 3 + ["none", "failing-cp"])
+        for j in range(ntests):
+            ref = [rng.choice([-1.0, 1.0]) * round(rng.uniform(1, 100), 6) for _ in range(nrow)]
+            kind = rng.choice(KINDS_CMP if USE_AREA else KINDS_CMP[:4])
+            want = rng.random() < 0.8
+            dirs, col = gen_column(rng, kind, want, ref)
+            refcols.append(ref)
+            goodcols.append(col)
+            # the wrong variant: every column fails with a large margin for any kind and any threshold used above
+            badcols.append([v * 3.0 + 1000.0 for v in ref])
+            tlines += dirs
+            colname = ("'c%d'" % j) if rng.random() < 0.3 else str(j + 2)
+            tlines.append('@Test "res.dat" "ref.dat" %s;' % colname)
+            if producer in ("none", "failing-cp"):
+                ok = False           # res.dat does not exist: the comparison throws, reported as a failure
+            elif producer == "gen":
+                ok = want if env_mode == "good" else False     # wrong variant / no variant (cp fails: no res.dat)
+            else:
+                ok = want
+            test_ok.append(ok)
+        files["ref.dat"] = table(names, refcols)
+        files["src_%s.dat" % good] = table(names, goodcols)
+        files["src_%s.dat" % other] = table(names, badcols)
+        files["plain.dat"] = table(names, goodcols)
+        # ---- commands
+        cl = []
+        for _ in range(rng.randint(0, 2)):
+            r = rng.random()
+            if r < 0.15:
+                cl.append(('@Command "false";', False))
+            elif r < 0.3:
+                cl.append(('@Command "false" {shall_fail : true};', True))
+            elif r < 0.5:
+                exp = rng.choice([good, other]) if env_mode != "unset" else ""
+                act = "" if env_mode == "unset" else (good if env_mode == "good" else other)
+                cl.append(('@Command "sh say.sh" {expected_output : "v=%s"};' % exp, exp == act))
+            elif r < 0.7:
+                cl.append(('@Command "true";', True))
+            else:
+                cl.append(('@Command "sleep 0.0%d";' % rng.randint(0, 4), True))
+        if producer == "gen":
+            cl.insert(rng.randint(0, len(cl)), ('@Command "sh gen.sh";', env_mode != "unset"))
+        elif producer == "cp":
+            cl.insert(rng.randint(0, len(cl)), ('@Command "cp plain.dat res.dat";', True))
+        elif producer == "failing-cp":
+            cl.insert(rng.randint(0, len(cl)), ('@Command "cp nosuchfile.dat res.dat";', False))
+        lines += [c[0] for c in cl]
+        cmd_ok = [c[1] for c in cl]
+        lines += tlines
+        checks.append({"text": "\n".join(lines) + "\n", "files": files, "req_ok": req_ok, "cmd_ok": cmd_ok, "test_ok": test_ok})
+    return checks
+
+
+def normal_form(ch):
+    """a check of a scenario (a list of commands: legacy; or a dict) -> dict text/files/req_ok/cmd_ok/test_ok"""
+    if isinstance(ch, dict):
+        return ch
+    return {"text": "".join('@Command "%s";\n' % x for x in ch), "files": {}, "req_ok": True,
+            "cmd_ok": [x != "false" for x in ch], "test_ok": []}
+
+
+def truth_of(ch, discard):
+    """independent statement of the verdict of a check: (verdict, per-command results, per-test results, skipped steps)"""
+    ch = normal_form(ch)
+    if not ch["req_ok"]:
+        return (True, [], [], len(ch["cmd_ok"]))
+    cmds_count = not (discard and ch["test_ok"])
+    v = all(ch["test_ok"]) and (all(ch["cmd_ok"]) or not cmds_count)
+    return (v, list(ch["cmd_ok"]), list(ch["test_ok"]), 0)
+
+
+def bits(l):
+    return "".join("1" if b else "0" for b in l) or "-"
+
+
+def res_str(i, t):
+    return "%d:%s:%s:%s:%d" % (i, "1" if t[0] else "0", bits(t[1]), bits(t[2]), t[3])
+
+
+def block_result(b):
+    """what the block of a check in tfel-check.log records: (verdict, per-command, per-test, skipped) or None"""
+    cm, ts, sk = [], [], 0
+    for l in b["lines"]:
+        m = re.match(r"\*\* Exec-(\d+) .*\[(SUCCESS| FAILED|SKIPPED)\]$", l)
+        if m:
+            if m.group(2) == "SKIPPED":
+                sk += 1
+                if int(m.group(1)) != sk:
+                    return None
+            else:
+                cm.append(m.group(2) == "SUCCESS")
+                if int(m.group(1)) != len(cm):
+                    return None
+            continue
+        m = re.match(r"\*\* Compare-(\d+) .*\[(SUCCESS| FAILED)\]$", l)
+        if m:
+            ts.append(m.group(2) == "SUCCESS")
+            if int(m.group(1)) != len(ts):
+                return None
+    if b["verdict"] is None:
+        return None
+    return (b["verdict"], cm, ts, sk)
+
+
+def read_junit(path):
+    """-> (sorted multiset of testcases (classname, name, success|failure, text) with the time attribute dropped, problem)"""
+    try:
+        txt = open(path, errors="replace").read()
+    except OSError:
+        return None, "missing"
+    try:
+        root = ET.fromstring(txt)
+    except ET.ParseError as e:
+        # not well-formed XML (the messages are not escaped by PCJUnitDriver): compare the text, times normalised
+        return ("raw", re.sub(r'time="[^"]*"', 'time=""', txt)), "not well-formed: %s" % e
+    if root.tag != "testsuite":
+        return None, "root element %s" % root.tag
+    cases = []
+    for tc in root:
+        if tc.tag != "testcase":
+            return None, "unexpected element %s" % tc.tag
+        kids = list(tc)
+        if len(kids) != 1 or kids[0].tag not in ("success", "failure"):
+            return None, "testcase %s without exactly one success/failure child" % tc.get("name")
+        cases.append((tc.get("classname"), tc.get("name"), kids[0].tag, (kids[0].text or "").strip()))
+    return ("xml", cases), None
 
 
 def parse_log(txt):
@@ -192,32 +449,69 @@ def main(c):
               "the TFEL libraries other than TFELCheck/ThreadPool/ProcessManager/SignalManager are taken from /repo/_build (hard links / copies made while no "
               "vlib build is running)",
               "python translation of the mutex log to Start/Append/Finish (tasks are popped in submission order: C29) and the parser of tfel-check.log",
-              "commands `true`, `false`, `sleep` as ground truth of each check")
+              "ground truth of each check computed by the generator: exit status of true / false / sleep / cp / sh scripts, comparison verdicts from the "
+              "generated numbers and thresholds (margins 0.3 x / 5 x), TextData parsing of the column files by TFEL is not re-implemented",
+              "xml.etree parser for the per-check JUnit files")
+    # @TestType Area: used in the corpus only if a single sequential Area comparison does not crash the tool (a sequential defect of the
+    # pinned tree, reported here with its input; patch props/C52/fix_area_null_column.diff)
+    global USE_AREA
+    if not USE_AREA and not c.replay:
+        rc_a, text_a, err_a = probe_area(c, exe, libdir)
+        if rc_a in (0, 1):
+            USE_AREA = True
+        elif rc_a in (-11, 139, -6, 134):
+            c.report("area:null-column-crash", "tfel-check -j 1 on one check made of\n%s(res.dat and ref.dat: two columns of 4 rows, equal up to 1e-9) ends with status %d: "
+                     "Test::setColIntegralInterpolated (tfel-check/src/Test.cxx) stores the column in the member `ci`, `colIntegralInterpolated` stays null and "
+                     "AreaComparison::compare dereferences it; @TestType Area is left out of the generated corpus of this run" % (text_a, rc_a),
+                     {"check_file": text_a, "exit_status": rc_a, "stderr": err_a[-600:], "how": "props/C52 driver (tfel-check rebuilt from the tree) -j 1 t0/a.check"}, True)
+        else:
+            c.report("area-probe", "tfel-check -j 1 on one check with one Area comparison ends with status %d: %s" % (rc_a, err_a[-300:]), {"check_file": text_a}, True)
+        c.notes.append("@TestType Area %s the generated corpus (probe: exit status %d)" % ("is part of" if USE_AREA else "is NOT part of", rc_a))
     if c.replay:
         r = c.replay["replay"]
-        scen = [(r.get("scenario_name", "replay"), r["checks"], r["jobs"], r["seed"], r["perturb"], r.get("widen", 0))]
+        scen = [(r.get("scenario_name", "replay"), r["checks"], r["jobs"], r["seed"], r["perturb"], r.get("widen", 0), r.get("discard", True))]
     else:
         scen = []
         for i in range(c.pick(10, 60)):
             n = c.rng.randint(2, c.pick(10, 30))
-            scen.append(("s%d" % i, gen(c.rng, n), c.rng.choice([2, 2, 3, 4, 8, 16]), c.rng.randrange(1, 1 << 30), c.rng.choice([0, 30, 60]), 0))
+            scen.append(("s%d" % i, gen_rich(c.rng, n), c.rng.choice([2, 2, 3, 4, 8, 16]), c.rng.randrange(1, 1 << 30), c.rng.choice([0, 30, 60]), 0,
+                         c.rng.random() < 0.6))
         # many short commands, 4 workers, and a pause of the thread that has just copied the handlers in the signal handler:
         # the schedule of defect F19 (one ProcessManager per command, destroyed while another thread is in treatAction)
         for i in range(c.pick(1, 4)):
-            scen.append(("lifetime%d" % i, [["true", "true", "true"] for _ in range(16)], 4, c.rng.randrange(1, 1 << 30), 0, 3000))
+            scen.append(("lifetime%d" % i, [["true", "true", "true"] for _ in range(16)], 4, c.rng.randrange(1, 1 << 30), 0, 3000, True))
+        # many checks whose commands all have an expected output that differs from one check to the next (the files that
+        # capture the output of the commands, <dir>/<name>-Exec-i.out, must be private to the check)
+        for i in range(c.pick(1, 3)):
+            chs = []
+            for k in range(16):
+                v = "K%dx%d" % (k, c.rng.randrange(1000))
+                good = [c.rng.random() < 0.8 for _ in range(3)]
+                chs.append({"text": '@Environment {"C52_VARIANT" : "%s"};\n' % v +
+                            "".join('@Command "sh say.sh" {expected_output : "v=%s"};\n' % (v if g else "other") for g in good),
+                            "files": {"say.sh": 'echo "v=$C52_VARIANT"\n'}, "req_ok": True, "cmd_ok": good, "test_ok": []})
+            scen.append(("outputs%d" % i, chs, 8, c.rng.randrange(1, 1 << 30), 30, 0, True))
     results = {}
     lock = threading.Lock()
 
-    def run_tfel_check(d, checks, jobs, seed, perturb, widen):
+    def run_tfel_check(d, checks, jobs, seed, perturb, widen, discard):
         for attempt in range(3):
             shutil.rmtree(d, ignore_errors=True)
             os.makedirs(d)
             args = []
-            for k, cmds in enumerate(checks):
+            with open(os.path.join(d, "tfel-check.config"), "w") as f:
+                f.write('components : {"c52::present"};\n')
+            for k, ch in enumerate(checks):
+                ch = normal_form(ch)
                 os.makedirs(os.path.join(d, "t%d" % k))
                 with open(os.path.join(d, "t%d" % k, "a.check"), "w") as f:
-                    f.write("".join('@Command "%s";\n' % x for x in cmds))
+                    f.write(ch["text"])
+                for fn, content in ch["files"].items():
+                    with open(os.path.join(d, "t%d" % k, fn), "w") as f:
+                        f.write(content)
                 args.append("t%d/a.check" % k)
+            if not discard:   # the default of tfel-check is to discard the failure of commands when the check has comparisons
+                args.insert(0, "--discard-commands-failure=false")
             env = {"C52_TRACE": os.path.join(d, "trace.bin"), "C52_SEED": str(seed), "C52_PERTURB": str(perturb), "C52_WATCHDOG": "40",
                    "C52_WIDEN": str(widen), "LD_LIBRARY_PATH": libdir}
             rc, out, err = c.run([exe, "-j", str(jobs)] + args, cwd=d, env=env, timeout=300)
@@ -233,13 +527,24 @@ def main(c):
             pass
         if rc == 97 and os.path.exists(env["C52_TRACE"] + ".hang"):
             err = "HANG\n" + open(env["C52_TRACE"] + ".hang", errors="replace").read()
-        return rc, log, evs, err
+        # per-check outputs of TestLauncher: JUnit file and text log
+        side = []
+        for k in range(len(checks)):
+            try:
+                cl = open(os.path.join(d, "t%d" % k, "a.checklog"), errors="replace").read()
+            except OSError:
+                cl = None
+            side.append((read_junit(os.path.join(d, "t%d" % k, "TEST-a.xml")), cl))
+        if not c.keep:
+            for k in range(len(checks)):
+                shutil.rmtree(os.path.join(d, "t%d" % k), ignore_errors=True)
+        return rc, log, evs, err, side
 
     def run_one(ix):
-        name, checks, jobs, seed, perturb, widen = scen[ix]
+        name, checks, jobs, seed, perturb, widen, discard = scen[ix]
         d = os.path.join(c.work, "runs", name)
-        par = run_tfel_check(os.path.join(d, "par"), checks, jobs, seed, perturb, widen)
-        ref = run_tfel_check(os.path.join(d, "ref"), checks, 1, seed, 0, 0)
+        par = run_tfel_check(os.path.join(d, "par"), checks, jobs, seed, perturb, widen, discard)
+        ref = run_tfel_check(os.path.join(d, "ref"), checks, 1, seed, 0, 0, discard)
         with lock:
             results[ix] = (par, ref)
 
@@ -248,13 +553,30 @@ def main(c):
     c.log("%d scenarios run (each with -j N and -j 1)" % len(scen))
     text = ""
     info = {}
-    for ix, (name, checks, jobs, seed, perturb, widen) in enumerate(scen):
+    for ix, (name, checks, jobs, seed, perturb, widen, discard) in enumerate(scen):
         n = len(checks)
-        truth = [("false" not in cmds) for cmds in checks]
-        for tag, (rc, log, evs, err) in (("par", results[ix][0]), ("ref", results[ix][1])):
+        full = [truth_of(ch, discard) for ch in checks]
+        truth = [t[0] for t in full]
+        names = ["t%d/a.check" % k for k in range(n)]
+        defs = ""
+        for k, ch in enumerate(checks):
+            ch = normal_form(ch)
+            defs += "D %d %d %d %s %s\n" % (k, ch["req_ok"], discard, bits(ch["cmd_ok"]), bits(ch["test_ok"]))
+        for tag, (rc, log, evs, err, side) in (("par", results[ix][0]), ("ref", results[ix][1])):
             model, waitfail, nev = translate(evs, n)
-            info[(ix, tag)] = (model, waitfail, nev)
-            text += "T %d:%s %d %s\n%s\nEND\n" % (ix, tag, n, " ".join("1" if t else "0" for t in truth), "\n".join(model))
+            # what the real log recorded for each check goes with its Finish event
+            observed = {}
+            for b in parse_log(log)[0]:
+                if b["name"] in names and names.index(b["name"]) not in observed:
+                    observed[names.index(b["name"])] = block_result(b)
+            model2 = []
+            for e in model:
+                if e.startswith("F "):
+                    o = observed.get(int(e[2:]))
+                    e = "%s %s" % (e, "? - - 0" if o is None else res_str(int(e[2:]), o).split(":", 1)[1].replace(":", " "))
+                model2.append(e)
+            info[(ix, tag)] = (model2, waitfail, nev, observed)
+            text += "T %d:%s %d %s\n%s%s\nEND\n" % (ix, tag, n, " ".join("1" if t else "0" for t in truth), defs, "\n".join(model2))
     rc, out, err = c.run([acc], input=text, timeout=600)
     verdicts = {}
     for l in out.splitlines():
@@ -263,22 +585,41 @@ def main(c):
             verdicts[t[1]] = (t[0], t[2] if len(t) > 2 else "")
     accepted = 0
     deferred = 0
-    for ix, (name, checks, jobs, seed, perturb, widen) in enumerate(scen):
+    results_checked = 0
+    junit_compared = 0
+    junit_malformed = 0
+    feat = {"checks": 0, "with_tests": 0, "tests": 0, "tests_failing": 0, "req_unmet": 0, "req_met": 0, "env": 0, "cmd_options": 0, "scenarios_with_discard_commands_failure_false": 0}
+    for ix, (name, checks, jobs, seed, perturb, widen, discard) in enumerate(scen):
         n = len(checks)
-        truth = [("false" not in cmds) for cmds in checks]
+        full = [truth_of(ch, discard) for ch in checks]
+        truth = [t[0] for t in full]
         names = ["t%d/a.check" % k for k in range(n)]
+        feat["scenarios_with_discard_commands_failure_false"] += not discard
+        for ch in checks:
+            ch = normal_form(ch)
+            feat["checks"] += 1
+            feat["with_tests"] += bool(ch["test_ok"])
+            feat["tests"] += len(ch["test_ok"])
+            feat["tests_failing"] += ch["test_ok"].count(False)
+            feat["req_unmet"] += not ch["req_ok"]
+            feat["req_met"] += ch["req_ok"] and "@Requires" in ch["text"]
+            feat["env"] += "@Environment" in ch["text"]
+            feat["cmd_options"] += ch["text"].count("expected_output") + ch["text"].count("shall_fail")
         blocks_by_tag = {}
+        side_by_tag = {}
         for tag in ("par", "ref"):
-            rc, log, evs, err = results[ix][0 if tag == "par" else 1]
-            model, waitfail, nev = info[(ix, tag)]
+            rc, log, evs, err, side = results[ix][0 if tag == "par" else 1]
+            model, waitfail, nev, observed = info[(ix, tag)]
             j = jobs if tag == "par" else 1
             deferred += sum(1 for e in evs if e[1] == "SIG_DEFERRED")
-            rep = {"scenario_name": name, "checks": checks, "jobs": jobs, "seed": seed, "perturb": perturb, "widen": widen, "run": tag, "exit_status": rc,
+            rep = {"scenario_name": name, "checks": checks, "jobs": jobs, "seed": seed, "perturb": perturb, "widen": widen, "discard": discard, "run": tag, "exit_status": rc,
+                   "ground_truth": [res_str(k, t) for k, t in enumerate(full)],
                    "tfel_check_log": log[:6000], "model_events": model[:400], "failed_blocking_waitpid_calls": waitfail,
                    "how": "props/C52 driver (tfel-check rebuilt from the tree) -j %d t0/a.check ... in a scratch directory" % j}
             c.count(1, (name, tag), j > 1 and n > j)
             if (ix * 2 + (tag == "ref")) % 9 == 0:
-                c.sample({"scenario": name, "jobs": j, "checks": checks, "model_events_head": model[:18], "exit_status": rc})
+                c.sample({"scenario": name, "jobs": j, "discard_commands_failure": discard, "checks": [normal_form(ch)["text"] for ch in checks][:6],
+                          "ground_truth i:verdict:commands:tests:skipped": [res_str(k, t) for k, t in enumerate(full)][:6], "model_events_head": model[:12], "exit_status": rc})
             # ---- defects of the signal handling (C30: F19, F22), reported only with their evidence in the log of this run
             ev19 = f19_evidence(evs)
             if ev19 is not None:
@@ -319,16 +660,45 @@ def main(c):
             if v is None:
                 c.report("acceptor:%s:%s" % (name, tag), "no verdict of the acceptor for scenario %s" % name, rep, False)
             elif v[0] == "REJECT":
-                c.report("reject:%s:%s" % (name, tag), "the mutex trace of tfel-check -j %d on scenario %s is not a run of the model: %s" % (j, name, v[1]), rep, True)
+                diff = ["%s: log records %s, launcher_execute of its definition gives %s" % (names[k], None if observed.get(k) is None else res_str(k, observed[k]), res_str(k, full[k]))
+                        for k in range(n) if observed.get(k) != full[k]]
+                c.report("reject:%s:%s" % (name, tag), "the run of tfel-check -j %d on scenario %s (mutex trace + results recorded in the log) is not a run of the model: %s; %s" % (
+                    j, name, v[1], diff[:4]), rep, True)
             else:
                 accepted += 1
-                m = re.search(r"appended=([0-9,]*) finished=(\d+)", v[1])
+                m = re.search(r"appended=([0-9,]*) finished=(\d+) recorded=(\S*) seq=(\S*)", v[1])
                 order = [int(x) for x in m.group(1).split(",") if x]
+                recorded = sorted(x for x in m.group(3).split(";") if x)
+                seqres = [x for x in m.group(4).split(";") if x]
+                mine = [res_str(k, t) for k, t in enumerate(full)]
+                results_checked += 1
+                if seqres != mine:
+                    c.report("model-vs-truth:%s" % name, "scenario %s: sequential_results of the model %s differs from the ground truth computed by the check %s" % (
+                        name, seqres[:6], mine[:6]), rep, False)
+                elif recorded != sorted(seqres) and int(m.group(2)) == n:
+                    c.report("results:%s:%s" % (name, tag), "scenario %s -j %d: recorded results %s are not those of the sequential run %s" % (name, j, recorded[:8], sorted(seqres)[:8]), rep, True)
                 if len(order) != n or int(m.group(2)) != n:
                     c.report("incomplete:%s:%s" % (name, tag), "scenario %s -j %d: only %d of %d checks appended their block under the log mutex / %s finished" % (
                         name, j, len(order), n, m.group(2)), rep, True)
             blocks, bad = parse_log(log)
             blocks_by_tag[tag] = blocks
+            side_by_tag[tag] = side
+            # per-check JUnit file against the ground truth
+            for k in range(n):
+                (ju, problem), cl = side[k]
+                exp = ([("Exec-%d" % (i + 1), "success" if ok else "failure") for i, ok in enumerate(full[k][1])] +
+                       [("Compare-%d" % (i + 1), "success" if ok else "failure") for i, ok in enumerate(full[k][2])])
+                if ju is None:
+                    c.report("junit:%s:%s" % (name, tag), "scenario %s -j %d: JUnit file t%d/TEST-a.xml: %s" % (name, j, k, problem), rep, True)
+                    break
+                if ju[0] == "raw":
+                    junit_malformed += 1
+                    got = re.findall(r'<testcase classname="[^"]*" name="([^"]*)" time="[^"]*">\s*<(success|failure)>', ju[1])
+                else:
+                    got = [(x[1], x[2]) for x in ju[1]]
+                if got != exp:
+                    c.report("junit:%s:%s" % (name, tag), "scenario %s -j %d: testcases of t%d/TEST-a.xml %s differ from the ground truth %s" % (name, j, k, got, exp), rep, True)
+                    break
             got = [b["name"] for b in blocks]
             if bad or sorted(got) != sorted(names):
                 c.report("log:%s:%s" % (name, tag), "scenario %s -j %d: tfel-check.log is not one uninterleaved block per check: %s; blocks found: %s" % (
@@ -336,24 +706,53 @@ def main(c):
             elif order is not None and got != [names[i] for i in order]:
                 c.report("logorder:%s:%s" % (name, tag), "scenario %s -j %d: order of the blocks in tfel-check.log %s differs from the order of the lock-protected appends %s" % (
                     name, j, got, [names[i] for i in order]), rep, True)
-            wrong = [b["name"] for b in blocks if b["name"] in names and b["verdict"] != truth[names.index(b["name"])]]
+            wrong = ["%s: log %s, ground truth %s" % (b["name"], None if block_result(b) is None else res_str(names.index(b["name"]), block_result(b)),
+                                                       res_str(names.index(b["name"]), full[names.index(b["name"])]))
+                     for b in blocks if b["name"] in names and block_result(b) != full[names.index(b["name"])]]
             if wrong or (rc == 1) != (not all(truth)):
-                what = "scenario %s -j %d: exit status %d with %d failing checks; checks with a wrong verdict in the log: %s" % (name, j, rc, truth.count(False), wrong)
+                what = "scenario %s -j %d: exit status %d with %d failing checks; checks whose verdict / per-command / per-test results in the log are wrong (i:verdict:commands:tests:skipped): %s" % (name, j, rc, truth.count(False), wrong[:5])
                 if waitfail:
                     c.report("F8:tfel-check-verdict", what + " (%d blocking waitpid calls of ProcessManager::wait failed in this run: defect F8 of C30)" % waitfail, rep, True)
                 else:
                     c.report("verdict:%s:%s" % (name, tag), what, rep, True)
+        if "par" in side_by_tag and "ref" in side_by_tag:
+            for k in range(n):
+                (jp, _p1), clp = side_by_tag["par"][k]
+                (jr, _p2), clr = side_by_tag["ref"][k]
+                if jp is None or jr is None:
+                    continue
+                junit_compared += 1
+                a = (jp[0], sorted(jp[1]) if jp[0] == "xml" else jp[1])
+                b = (jr[0], sorted(jr[1]) if jr[0] == "xml" else jr[1])
+                if a != b:
+                    c.report("junit-par-vs-seq:%s" % name, "scenario %s: t%d/TEST-a.xml of -j %d and of -j 1 differ (testcases as a multiset, time attributes dropped): %s vs %s" % (
+                        name, k, jobs, str(a)[:600], str(b)[:600]),
+                        {"scenario_name": name, "checks": checks, "jobs": jobs, "seed": seed, "perturb": perturb, "widen": widen, "discard": discard}, True)
+                    break
+                if clp != clr:
+                    c.report("checklog-par-vs-seq:%s" % name, "scenario %s: t%d/a.checklog of -j %d and of -j 1 differ: %r vs %r" % (name, k, jobs, (clp or "")[:600], (clr or "")[:600]),
+                             {"scenario_name": name, "checks": checks, "jobs": jobs, "seed": seed, "perturb": perturb, "widen": widen, "discard": discard}, True)
+                    break
         if "par" in blocks_by_tag and "ref" in blocks_by_tag:
             norm = lambda bs: sorted((b["name"], b["verdict"], tuple(x for x in b["lines"] if not x.startswith("entering"))) for b in bs)
             if norm(blocks_by_tag["par"]) != norm(blocks_by_tag["ref"]) and not any(k[0].startswith(("F8", "log:", "verdict:")) for k in c.violations):
                 if not (info[(ix, "par")][1] or info[(ix, "ref")][1]):
                     c.report("multiset:%s" % name, "scenario %s: the blocks of -j %d and -j 1 differ as multisets" % (name, jobs),
-                             {"scenario_name": name, "checks": checks, "jobs": jobs, "seed": seed, "perturb": perturb, "widen": widen}, True)
+                             {"scenario_name": name, "checks": checks, "jobs": jobs, "seed": seed, "perturb": perturb, "widen": widen, "discard": discard}, True)
     c.coverage["traces_validated_against_impl"] = accepted
-    c.coverage["rule"] = ("seeded sets of 2-30 .check files with 1-3 commands each (true / false / sleep 0-40 ms), tfel-check -j 2..16 with seeded delays at "
+    c.coverage["corpus_features"] = feat
+    c.coverage["runs_whose_recorded_results_were_compared_with_sequential_results"] = results_checked
+    c.coverage["junit_files_compared_par_vs_seq"] = junit_compared
+    if junit_malformed:
+        c.notes.append("%d JUnit files were not well-formed XML and were compared as text (time attributes normalised)" % junit_malformed)
+    c.coverage["rule"] = ("seeded sets of 2-30 .check files (quick: 2-10): 1/4 with 1-3 plain commands (true / false / sleep 0-40 ms), 3/4 with @Requires (met / unmet, "
+                          "component declared in tfel-check.config), @Environment (a variable, different in each check, selects the result file a script installs), "
+                          "0-3 @Command (sh scripts, cp, options expected_output / shall_fail) writing result files in the check's directory, 1-5 @Test against a "
+                          "reference file with @TestType Absolute / Relative / RelativeAndAbsolute / Mixed and @Precision (errors at 0.3 x or 5 x the threshold), "
+                          "passing and failing, missing result files; with and without --discard-commands-failure=false; tfel-check -j 2..16 with seeded delays at "
                           "the log and pool mutexes, and the same set with -j 1; + `lifetime` sets (16 checks of three `true`, -j 4, pause after the handlers are "
-                          "copied in the signal handler); one evaluation = one tfel-check run; non-trivial = more checks than jobs and jobs > 1")
-    c.notes.append("no source hook needed; @Test comparisons are not part of the generated checks (commands only)")
+                          "copied in the signal handler) and `outputs` sets (16 checks of three commands with a per-check expected output, -j 8); one evaluation = one tfel-check run; non-trivial = more checks than jobs and jobs > 1")
+    c.notes.append("no source hook needed" + ("" if USE_AREA else "; @TestType Area is left out of the generated checks (it crashes tfel-check whatever -j: see NOTES.md)"))
     c.notes.append("SIGCHLD signals that arrived inside malloc/free and were re-sent after the allocation returned (hazard F24 of props/C30/NOTES.md, kept out of the runs): %d" % deferred)
     c.log("runs judged: %d accepted" % accepted)
     res = c.coq(MODEL + ["C52Proofs.v", "Properties_C52.v"], timeout=600)
